@@ -80,6 +80,9 @@ func c20Corpus() []corr.Case {
 		// folder names spelled with backslashes, also a trailing one
 		mk("case", "mkdir "+hx(bucketName+"\\logs\\"), "bucket", "stat "+fsn("logs"), "create "+fsn("logs/a"), "close 0", "remove "+fsn("logs/a"), "bucket",
 			"removeall "+hx(bucketName+"\\logs"), "bucket", "stat "+fsn("logs"), "mkdirall "+hx(bucketName+"\\p\\q\\"), "bucket", "removeall "+fsn("p"), "bucket"),
+		// io.Copy into a handle positioned inside an existing object: the bytes behind the copied range survive
+		mk("case "+hx("f")+"=30313233343536373839", "openfile "+fsn("f")+" 2", "seek 0 2 0", "readfrom 0 616263", "close 0", "bucket", "stat "+fsn("f"), "open "+fsn("f"), "read 1 32",
+			"create "+fsn("g"), "readfrom 2 6768", "readfrom 2 69", "close 2", "bucket"),
 		// an implicit folder asked for with its trailing separator
 		mk("case "+hx("report/jan")+"=01 "+hx("report/feb/x")+"=02", "stat "+hx(bucketName+"/report/"), "stat "+hx(bucketName+"\\report\\feb\\"), "stat "+fsn("report/feb"), "bucket"),
 		// large payloads across the 32 KiB copy buffer
@@ -401,7 +404,11 @@ func randProgram(r *corr.Rand, steps int) corr.Case {
 				if !h.posKnown {
 					emit(fmt.Sprintf("seek %d %d 0", k, off))
 				}
-				emit(fmt.Sprintf("write %d %s", k, randPayload(r)))
+				if pl := randPayload(r); pl != "-" && !strings.HasPrefix(pl, "#") && r.Chance(25) {
+					emit(fmt.Sprintf("readfrom %d %s", k, pl)) // io.Copy into the handle from a plain reader (one piece): a sequential Write
+				} else {
+					emit(fmt.Sprintf("write %d %s", k, pl))
+				}
 			case q < 36:
 				emit(fmt.Sprintf("writeat %d %s %d", k, randPayload(r), off))
 			case q < 52:
